@@ -49,3 +49,13 @@ func (q *InQueue) VerifForgetAcks() {
 	q.acked = nil
 	q.mutex.Unlock()
 }
+
+// VerifHead: the number of the first chunk queued and not acknowledged.
+func (q *OutQueue) VerifHead() (uint16, bool) {
+	q.mutex.Lock()
+	defer q.mutex.Unlock()
+	if len(q.out) == 0 {
+		return 0, false
+	}
+	return q.out[0].SeqNo, true
+}
